@@ -135,7 +135,7 @@ func Accept(fd int) (int, Sockaddr, error) {
 	}
 	switch vf.Choice("accept", 3) {
 	case 1:
-		vf.Assume(vkernel.K.Cfg.AllowAgain)
+		vf.Assume(vf.All(vkernel.K.Cfg.AllowAgain, !vkernel.K.FDs[fd].HupSeen))
 		return -1, nil, EAGAIN
 	case 2:
 		vf.Assume(vkernel.K.Cfg.AllowIOErr)
@@ -257,7 +257,9 @@ func Recvfrom(fd int, p []byte, flags int) (int, Sockaddr, error) {
 	f := &vkernel.K.FDs[fd]
 	switch vf.Choice("recvfrom", 4) {
 	case 1:
-		vf.Assume(vkernel.K.Cfg.AllowAgain)
+		// would-block, unless epoll has reported an error/hang-up condition for this socket (then the
+		// pending error or the data is returned)
+		vf.Assume(vf.All(vkernel.K.Cfg.AllowAgain, !f.HupSeen))
 		return -1, nil, EAGAIN
 	case 2:
 		vf.Assume(vkernel.K.Cfg.AllowIOErr)
@@ -291,10 +293,10 @@ func Sendto(fd int, p []byte, flags int, to Sockaddr) error {
 	f := &vkernel.K.FDs[fd]
 	switch vf.Choice("sendto", 4) {
 	case 1:
-		vf.Assume(vkernel.K.Cfg.AllowAgain)
+		vf.Assume(vf.All(vkernel.K.Cfg.AllowAgain, !f.HupSeen))
 		return EAGAIN
 	case 2:
-		vf.Assume(vkernel.K.Cfg.AllowAgain)
+		vf.Assume(vf.All(vkernel.K.Cfg.AllowAgain, !f.HupSeen))
 		return ENOBUFS
 	case 3:
 		vf.Assume(vkernel.K.Cfg.AllowIOErr)
